@@ -293,6 +293,10 @@ type Dog implements Node & Pet { id: ID }
 type Cat implements Node & Pet & Named { id: ID name: String }
 union U = User | Dog
 type Query { node: Node entity: Entity pet: Pet named: Named u: U user: User }
+type Subscription implements Node & Pet & Named { id: ID name: String other: String }
+directive @onLonely on FIELD
+scalar onLonely
+directive @Node on FIELD | INLINE_FRAGMENT
 ";
 
 /// a schema that defines none of the names documents use (C15: "whether or not the schema
